@@ -61,6 +61,14 @@ func reproduces(t *testing.T, pd *propDef, p *Plan, rule string) (*Plan, bool) {
 func shrink(t *testing.T, pd *propDef, p *Plan, v Violation, known map[string]bool) *Plan {
 	deadline := time.Now().Add(45 * time.Second)
 	lg := ShrinkLog{ActorsFrom: len(p.Actors), OpsFrom: countOps(p), PicksFrom: len(p.Sched.Picks)}
+	if pd.ID == "C18" {
+		// The race detector reports a given pair of stacks once per process, so the race that was just found
+		// cannot fire again here; anything a re-execution reports would be a different race. The recorded
+		// plan and schedule are kept as they are and replayed in a fresh process by the driver.
+		lg.ActorsTo, lg.OpsTo, lg.PicksTo = lg.ActorsFrom, lg.OpsFrom, lg.PicksFrom
+		lastShrink = lg
+		return p
+	}
 	best := p
 	execs := 0
 	try := func(c *Plan) bool {
